@@ -191,6 +191,7 @@ type worker struct {
 	ctorThisGet  bool
 	delTrue      int64
 	evictTrue    int64
+	concRel      int64
 	heldDelete   int64
 	maxBuckets   int
 	maxNodes     int64
@@ -487,6 +488,27 @@ func (w *worker) releaseAt(i int, twice bool) {
 	}
 	w.log(opRelease, hh.x.a, hh.x.k, hh.x, 0)
 	hh.x.handles.Add(-1) // before the real release
+	if twice && w.r.Intn(2) == 0 {
+		// the same handle released by two goroutines at once: still one release (Handle.Release swaps the
+		// node pointer out atomically), so a value shared with another handle must stay alive
+		var gate atomic.Int32
+		done := make(chan struct{})
+		go func() {
+			gate.Add(1)
+			for gate.Load() < 2 {
+			}
+			hh.h.Release()
+			close(done)
+		}()
+		gate.Add(1)
+		for gate.Load() < 2 {
+			runtime.Gosched()
+		}
+		hh.h.Release()
+		<-done
+		w.concRel++
+		return
+	}
 	hh.h.Release()
 	if twice {
 		hh.h.Release() // documented to be safe
@@ -1046,6 +1068,7 @@ func runCase(c *wk.Ctx, i int) {
 		nilCtor += w.nilValueCtor
 		delTrue += w.delTrue
 		evTrue += w.evictTrue
+		c.Count("handles_released_by_two_goroutines_at_once", w.concRel)
 		heldDel += w.heldDelete
 		if w.maxShare > maxShare {
 			maxShare = w.maxShare
